@@ -13,9 +13,12 @@ what the WSGI application does for each (status, header list, optional Content-L
 pieces its iterator yields, the generator's return value).  Output: every byte queued on the
 connection, whether the server closed it, how many times the app was called.
 
-Not modelled (outside C18's quantifier, never generated): an app that itself supplies a
-`Content-Length`/`Transfer-Encoding` header through the header list (the model takes the length as
-a number), an app that raises, `exc_info`, the legacy `write()` callable.
+An app may list `Transfer-Encoding: chunked` (any case of name and value) itself: `build()` then chunks exactly as
+if it had not.  An app may raise `httping.HTTPError` (`Err`, `respondX`): before the head is out the error is rendered as a
+length-delimited text response of its own, afterwards the response simply ends.
+
+Not modelled (outside C18's quantifier, never generated): an app that supplies a `Content-Length` header through the header
+list of the model (the model takes the length as a number) or another transfer coding, an app that raises anything else.
 -/
 namespace Hio.Http.Wsgi
 open Hio.Http
@@ -56,7 +59,8 @@ def chunkable (r : Req) (a : App) : Bool := r.ver != 0 && a.clen.isNone
 /-- `Responder.build`: decides `.chunked` and completes the header list -/
 def chunkedOf (r : Req) (a : App) : Bool :=
   let hs := startHeaders a
-  chunkable r a && (!hasKey (lit "transfer-encoding") hs || getKey (lit "transfer-encoding") hs == some (lit "chunked"))
+  chunkable r a && (!hasKey (lit "transfer-encoding") hs ||
+    (getKey (lit "transfer-encoding") hs).map lower == some (lit "chunked"))
 
 def finalHeaders (r : Req) (a : App) : Headers :=
   let hs := startHeaders a
@@ -127,5 +131,99 @@ def serve : List (Req × App) → Out
       let o := serve rest
       ⟨respond r a ++ o.raw, o.closed, o.calls + 1⟩
     else ⟨respond r a, true, 1⟩
+
+/-! ### an app that raises `httping.HTTPError`
+
+`Responder.service`: if nothing has been sent for this response yet the error replaces it — status `"{status} {reason}"`, the
+error's own headers, `content-type: text/plain` unless it has one, `content-length` of the rendered text ALWAYS set by the
+server (a Content-Length carried by the error is overwritten in place), body = `HTTPError.render()`.  Once the head is out the
+error is only logged and the response ends as if the iterator were exhausted. -/
+
+structure Err where
+  status : Nat
+  reason : Bytes            -- empty: `STATUS_DESCRIPTIONS.get(status, "Unknown")`
+  title : Bytes
+  detail : Bytes
+  fault : Option Nat
+  headers : Headers
+deriving Repr, DecidableEq
+
+def errReason (e : Err) : Bytes :=
+  if e.reason.isEmpty then (Gen.statusDescriptions.lookup e.status).getD (lit "Unknown") else e.reason
+
+/-- `HTTPError.render()` -/
+def renderErr (e : Err) : Bytes :=
+  toDec e.status ++ [32] ++ errReason e ++ [10] ++ e.title ++ [10] ++ e.detail ++ [10] ++
+    (match e.fault with | some f => toDec f | none => [])
+
+/-- `headers.update(ex.headers.items())`, default content type -/
+def errHs1 (e : Err) : Headers :=
+  if hasKey (lit "content-type") e.headers then e.headers else e.headers ++ [(lit "content-type", lit "text/plain")]
+
+/-- `headers['content-length'] = str(len(msg))`: a value the error carried is replaced where it stands, otherwise appended
+(names are title-cased on the wire, so the spelling of the appended name is immaterial) -/
+def errHeaders (e : Err) : Headers :=
+  let v := toDec (renderErr e).length
+  if hasKey (lit "content-length") (errHs1 e) then setKey (lit "content-length") v (errHs1 e)
+  else errHs1 e ++ [(lit "Content-Length", v)]
+
+/-- the whole error response: `start(status, headers.items(), exc_info)`, `write(msg)`; a length is declared, so never chunked -/
+def respondErr (e : Err) : Bytes :=
+  let hs := errHeaders e
+  let hsS := if hasKey (lit "server") hs then hs else hs ++ [(lit "server", Gen.serverName)]
+  let hsD := if hasKey (lit "date") hsS then hsS else hsS ++ [(lit "date", fixedDate)]
+  joinCrlf (((Gen.responseVersion ++ [32] ++ (toDec e.status ++ [32] ++ errReason e)) :: hsD.map (fun h => packHeader h.1 h.2)) ++ [[], []])
+    ++ renderErr e
+
+/-- the same response seen as the output of an app (when the error carries no Content-Length of its own) -/
+def errApp (e : Err) : App :=
+  ⟨toDec e.status ++ [32] ++ errReason e, errHs1 e, some (renderErr e).length, [renderErr e], []⟩
+
+/-- an app together with the point where it raises: after `k` items of its iterator -/
+structure AppX where
+  app : App
+  err : Option (Nat × Err)
+deriving Repr, DecidableEq
+
+def respondX (r : Req) (x : AppX) : Bytes :=
+  match x.err with
+  | none => respond r x.app
+  | some (k, e) =>
+    let before := x.app.pieces.take k
+    if before.all (·.isEmpty) then respondErr e
+    else respond r { x.app with pieces := before, retval := [] }
+
+def serveX : List (Req × AppX) → Out
+  | [] => ⟨[], false, 0⟩
+  | (r, x) :: rest =>
+    if persisted r then
+      let o := serveX rest
+      ⟨respondX r x ++ o.raw, o.closed, o.calls + 1⟩
+    else ⟨respondX r x, true, 1⟩
+
+/-! ### idle time
+
+`Requestant.checkPersisted` sets `remoter.tymeout = 0` ("never times out") as soon as a persistent request is parsed, and
+nothing sets it back; `Server.serviceConnects` drops a connection whose `tymeout > 0` timer has expired with no traffic.
+`gap` = seconds without traffic before a request arrives, `stall` = longest silence while the app answers it.
+`none` = the connection was dropped by the idle timeout (what happens then is C12's matter). -/
+
+structure Pace where
+  gap : Nat
+  stall : Nat
+deriving Repr, DecidableEq
+
+def reaped (tymeout idle : Nat) : Bool := tymeout != 0 && idle ≥ tymeout
+
+def serveTimed (tymeout : Nat) : List (Req × App × Pace) → Option Out
+  | [] => some ⟨[], false, 0⟩
+  | (r, a, p) :: rest =>
+    if reaped tymeout p.gap then none
+    else
+      let t' := if persisted r then 0 else tymeout
+      if reaped t' p.stall then none
+      else if persisted r then
+        (serveTimed t' rest).map (fun o => ⟨respond r a ++ o.raw, o.closed, o.calls + 1⟩)
+      else some ⟨respond r a, true, 1⟩
 
 end Hio.Http.Wsgi
